@@ -227,11 +227,14 @@ impl Gen {
     fn aligned_batch(&mut self, q: &str, cursor: u64) -> Vec<usize> {
         let in_block = cursor % BLOCK;
         let rem = BLOCK - in_block; // bytes left in the block (1..=BLOCK)
-        let nrec = *self.rng.pick(&[1usize, 1, 1, 2, 3]);
+        // one time in four: a single record whose payload tail (the forged entry every payload
+        // carries, see ops::payload_bytes) starts exactly at a frame boundary
+        let forge = self.rng.chance(1, 4);
+        let nrec = if forge { 1 } else { *self.rng.pick(&[1usize, 1, 1, 2, 3]) };
         let fixed = 11 + q.len() as i64 + 12 * nrec as i64; // entry bytes besides payload
         // number of additional whole blocks the entry should span
         let extra_blocks = *self.rng.pick(&[0i64, 0, 0, 1, 1, 2, 3, 5]);
-        let d = self.rng.range(0, 18) as i64 - 9; // -9..=9 around the boundary
+        let d = if forge { crate::ops::FORGED_ENTRY_LEN as i64 } else { self.rng.range(0, 18) as i64 - 9 }; // -9..=9 around the boundary
         // entry length such that (with one header per frame) the last frame ends d bytes
         // from the end of the target block
         let first_cap = if rem >= 7 { rem as i64 - 7 } else { BLOCK as i64 - 7 };
